@@ -85,6 +85,9 @@ int main(int argc, char** argv) {
         { PoolFile z; z.name = "Z"; z.path = g_dir + "/in_Z_missing"; pool.push_back(z); }
         if (!pool[7].valid || !pool[8].valid || pool[8].rf.blocks.empty() || pool[8].rf.blocks[0].has_bpi) { fprintf(stderr, "pool file I or J invalid\n"); return done(2); }
         size_t N = pool.size();
+        // beyond the enumerated pool: 140 small files with two parameter sets each, all different (the merged file needs 280 sets: indices beyond 8 bits)
+        const size_t MANY = 140;
+        for (size_t i = 0; i < MANY; i++) { seeds::Opt o; o.sets = {PS(10000, 1000 + i, 0), PS(5000 + i, 1000000, i % 2 ? 3 : 0)}; o.blocks = 2; o.per_block = 1; o.aec = (i % 3 == 0); o.mm = (i % 4 == 0); o.qr_from = (int)(i % 5); char nm[16]; snprintf(nm, sizeof nm, "m%03zu", i); add(nm, seeds::make(o)); }
         auto run_tuple = [&](const std::vector<size_t>& tup, Result& R) {
             std::string tag = "t" + std::to_string(getpid()); std::string name; for (size_t i : tup) name += pool[i].name;
             std::string rep = "tuple=" + name; set_note(rep); std::vector<CV> out;
@@ -123,7 +126,9 @@ int main(int argc, char** argv) {
             if (R.n["traces"] % 53 == 1) R.sample(rep);
         };
         auto parse_tuple = [&](const std::string& s) { std::vector<size_t> t; size_t p = s.find("tuple="); if (p == std::string::npos) return t; for (size_t i = p + 6; i < s.size(); i++) for (size_t k = 0; k < N; k++) if (pool[k].name[0] == s[i]) t.push_back(k); return t; };
+        std::vector<size_t> many_tuple; for (size_t i = 0; i < MANY; i++) many_tuple.push_back(N + i); many_tuple.push_back(0); many_tuple.push_back(N);   // + file A + the first small file again
         if (!a.replay.empty()) { std::string s = slurp(a.replay);
+            if (s.find("tuple=m000") != std::string::npos) { run_tuple(many_tuple, total); return done(total.viol.empty() ? 0 : 1); }
             size_t ic = s.find("itemcount=");
             if (ic != std::string::npos) { // itemcount run directly on one pool file
                 for (auto& f : pool) if (f.valid && f.name[0] == s[ic + 10]) { std::vector<CV> out; check_itemcount(f.path, f.rf, "rp", total, out); for (auto& v : out) total.violation("merge|" + v.key, v.what + " [file " + f.name + "]", "itemcount=" + f.name); }
@@ -132,10 +137,11 @@ int main(int argc, char** argv) {
         std::vector<std::vector<size_t>> tuples;
         for (size_t i = 0; i < N; i++) { tuples.push_back({i}); for (size_t j = 0; j < N; j++) { tuples.push_back({i, j}); for (size_t k = 0; k < N; k++) tuples.push_back({i, j, k}); } }
         Pool pl(a.jobs, 300);
+        tuples.push_back(many_tuple);
         pl.run(tuples.size() + 1, [&](uint64_t i, Result& R) {
             if (a.expired()) { R.deadline_hit = true; return; }
             if (i == tuples.size()) { // itemcount on every valid input
-                for (auto& f : pool) if (f.valid) { std::vector<CV> out; check_itemcount(f.path, f.rf, "p" + std::to_string(getpid()), R, out); R.count("traces"); R.count("nontrivial"); for (auto& v : out) R.violation("merge|" + v.key, v.what + " [file " + f.name + "]", "itemcount=" + f.name); }
+                for (size_t fi = 0; fi < N; fi++) if (pool[fi].valid) { auto& f = pool[fi]; std::vector<CV> out; check_itemcount(f.path, f.rf, "p" + std::to_string(getpid()), R, out); R.count("traces"); R.count("nontrivial"); for (auto& v : out) R.violation("merge|" + v.key, v.what + " [file " + f.name + "]", "itemcount=" + f.name); }
                 return; }
             run_tuple(tuples[i], R);
         }, [&](uint64_t, const std::string& d, Result& R) { R.violation("merge|harness-crash", d.substr(0, 500), pl.last_note); }, total);
